@@ -168,6 +168,10 @@ pub enum Ev {
     /// rename event carrying both paths (the watcher calls `remove_source` on both and then
     /// collects work again)
     Renamed(String, String),
+    /// one half of a rename whose other end is not watched: a file moved into the watched tree from outside
+    /// (`Modify(Name(To))`) or out of it (`Modify(Name(From))`); same handling as a rename with one path
+    MovedIn(String),
+    MovedOut(String),
 }
 
 /// a change of the file tree performed "by the user"
@@ -347,6 +351,44 @@ impl Model {
                     }
                 }
             }
+            "mvin" => {
+                // a file written somewhere that is not watched and then moved into the input tree (a new file, or
+                // over an existing one: an editor that keeps its temporary files elsewhere)
+                if arg != CONFIG && !arg.is_empty() {
+                    let k = self.next();
+                    let existed = self.files.contains_key(arg);
+                    let was_broken = self.broken.remove(arg);
+                    let text = content(arg, k);
+                    let tmp = format!("stash/incoming{}.lua", k);
+                    self.files.insert(arg.to_string(), text.clone());
+                    out.mutations.push(Mutation::Write(tmp.clone(), text));
+                    out.mutations.push(Mutation::Rename(tmp, arg.to_string()));
+                    out.events.push(Ev::MovedIn(arg.to_string()));
+                    out.effective = true;
+                    out.labels.push(if existed { "move_in_over_existing" } else { "move_in_new_file" });
+                    if was_broken {
+                        out.labels.push("repair");
+                    }
+                    if Model::is_dep(arg) {
+                        out.labels.push("edit_dependency");
+                    }
+                }
+            }
+            "mvout" => {
+                if self.files.contains_key(arg) && arg != CONFIG {
+                    let k = self.next();
+                    self.files.remove(arg);
+                    self.broken.remove(arg);
+                    self.removed_once.insert(arg.to_string());
+                    out.mutations.push(Mutation::Rename(arg.to_string(), format!("stash/outgoing{}.lua", k)));
+                    out.events.push(Ev::MovedOut(arg.to_string()));
+                    out.effective = true;
+                    out.labels.push("move_out");
+                    if Model::is_dep(arg) {
+                        out.labels.push("remove_dependency");
+                    }
+                }
+            }
             "save" => {
                 // "atomic save": the new content is written to a temporary file which is then
                 // renamed over the source
@@ -450,7 +492,10 @@ pub fn alphabet(avoid_filter_hash: bool, avoid_recreate: bool) -> Vec<String> {
     if !avoid_recreate {
         v.push(format!("save:{}", A));
         v.push(format!("save:{}", M1));
+        v.push(format!("mvin:{}", A));
     }
+    v.push(format!("mvin:{}", NEW1));
+    v.push(format!("mvout:{}", B));
     for r in 1..RULE_SETS {
         v.push(format!("rules:{}", r));
     }
@@ -478,7 +523,12 @@ pub fn random_ops(avoid_filter_hash: bool, avoid_recreate: bool) -> Vec<String> 
     if !avoid_recreate {
         v.push(format!("save:{}", MAIN));
         v.push(format!("save:{}", B));
+        v.push(format!("mvin:{}", M1));
+        v.push(format!("mvin:{}", MAIN));
     }
+    v.push(format!("mvin:{}", NEW2));
+    v.push(format!("mvout:{}", A));
+    v.push(format!("mvout:{}", M1));
     for p in [C, NEW1, NEW2] {
         v.push(format!("edit:{}", p));
     }
